@@ -106,6 +106,18 @@ def snapshot_model_exe():
     src = os.path.join(LEAN, ".lake", "build", "bin", "fsmodel")
     if not os.path.exists(src):
         return
+    # private copies left behind by killed runs
+    for fn in os.listdir(BUILD):
+        if fn.startswith("fsmodel_run_"):
+            try:
+                os.kill(int(fn.rsplit("_", 1)[1]), 0)
+            except (ProcessLookupError, ValueError):
+                try:
+                    os.unlink(os.path.join(BUILD, fn))
+                except OSError:
+                    pass
+            except PermissionError:
+                pass
     dst = os.path.join(BUILD, "fsmodel_run_%d" % os.getpid())
     shutil.copy2(src, dst)
     _PRIVATE_MODEL[0] = dst
